@@ -161,6 +161,10 @@ func (p *Parser) ParseProgram() *ast.Statements {
 		program.Statements = append(program.Statements, stmt)
 		p.nextToken()
 	}
+	if p.curTokenIs(token.EOL) && p.l.Unterminated() {
+		// Line mode input ending inside a string that starts a statement: not the end, more input is needed.
+		p.continuationNeeded = true
+	}
 
 	return program
 }
@@ -302,7 +306,12 @@ func (p *Parser) parseExpression(precedence ast.Priority) ast.Node {
 	}
 	prefix := p.prefixParseFns[p.curToken.Type()]
 	if prefix == nil {
-		if !p.peekTokenIs(token.LAMBDA) { // To make () => { ... } without errors.
+		switch {
+		case p.peekTokenIs(token.LAMBDA): // To make () => { ... } without errors.
+		case p.curTokenIs(token.RPAREN) && p.prevToken != nil && p.prevToken.Type() == token.LPAREN && p.peekTokenIs(token.EOL):
+			// `()` at the end of a line: the `=>` of the lambda can still come.
+			p.continuationNeeded = true
+		default:
 			p.noPrefixParseFnError(p.curToken)
 		}
 		return nil
